@@ -91,6 +91,7 @@ type poolUse struct {
 	resultNames []string
 	retains     []string
 	passedTo    []string
+	pushBack    []string // per `*in = io.MultiReader(bytes.NewReader(x), *in)` (in: a *io.Reader parameter): is x a slice of the buffer (alias) or not (copy)
 }
 
 // isPoolCall: BufPool.Get() / BufPool.Put(x)
@@ -174,6 +175,8 @@ func (t *taint) callDerived(c *ast.CallExpr) bool {
 		return t.derived(c.Args[0])
 	case name == "bytes.NewReader", name == "bytes.NewBuffer":
 		return true // the reader keeps the slice
+	case name == "io.MultiReader", name == "io.TeeReader", name == "io.LimitReader", name == "io.NopCloser", name == "bufio.NewReader":
+		return true // a reader built over readers keeps them (and with them the slice)
 	case name == "BufPool.Put":
 		return false
 	case strings.HasSuffix(name, ".Read"):
@@ -401,6 +404,47 @@ func analysePoolFunc(fd *ast.FuncDecl) *poolUse {
 			return true
 		})
 	}
+	// 3b. what is pushed back in front of the caller's stream: `*in = io.MultiReader(bytes.NewReader(x), *in)`
+	// with `in` a *io.Reader parameter. The reader keeps x beyond the return of this function (and of
+	// its caller: the goroutine Decrypt starts consumes it), so x must not be a slice of the buffer.
+	readerParams := map[string]bool{}
+	for _, f := range fd.Type.Params.List {
+		if exprStr(f.Type) == "*io.Reader" {
+			for _, n := range f.Names {
+				readerParams[n.Name] = true
+			}
+		}
+	}
+	ast.Inspect(fd.Body, func(n ast.Node) bool {
+		as, ok := n.(*ast.AssignStmt)
+		if !ok || len(as.Lhs) != len(as.Rhs) {
+			return true
+		}
+		for i, l := range as.Lhs {
+			st, ok := l.(*ast.StarExpr)
+			if !ok {
+				continue
+			}
+			id, ok := st.X.(*ast.Ident)
+			if !ok || !readerParams[id.Name] {
+				continue
+			}
+			c, ok := as.Rhs[i].(*ast.CallExpr)
+			if !ok || exprStr(c.Fun) != "io.MultiReader" || len(c.Args) != 2 || exprStr(c.Args[1]) != "*"+id.Name {
+				die(as.Pos(), "assignment to *%s other than io.MultiReader(<reader over the surplus bytes>, *%s)", id.Name, id.Name)
+			}
+			inner, ok := c.Args[0].(*ast.CallExpr)
+			if !ok || exprStr(inner.Fun) != "bytes.NewReader" || len(inner.Args) != 1 {
+				die(as.Pos(), "surplus bytes pushed back by something other than bytes.NewReader(x)")
+			}
+			if t.derived(inner.Args[0]) {
+				u.pushBack = append(u.pushBack, "alias")
+			} else {
+				u.pushBack = append(u.pushBack, "copy")
+			}
+		}
+		return true
+	})
 	// 4. results
 	nres := 0
 	if fd.Type.Results != nil {
@@ -1140,6 +1184,14 @@ func main() {
 		fmt.Fprintln(os.Stderr, "factgen_c08: readHeader (3 results, buffer from BufPool) not found")
 		os.Exit(1)
 	}
+	if len(rh.pushBack) == 0 {
+		fmt.Fprintln(os.Stderr, "factgen_c08: unknown shape: readHeader does not push the bytes read past the header back with `*in = io.MultiReader(bytes.NewReader(x), *in)`")
+		os.Exit(1)
+	}
+	surplus := ""
+	for _, k := range rh.pushBack {
+		surplus = worst(surplus, k)
+	}
 	lockFacts := analyseLogger(filepath.Join(*repo, "logger"))
 	pw, lw, valueRecv, pmethods := analyseCron(filepath.Join(*repo, "cron"))
 	pfields := parserFieldKinds(filepath.Join(*repo, "cron"))
@@ -1188,6 +1240,7 @@ func main() {
 		return "." + r
 	}
 	fmt.Fprintf(&b, "/-- what `readHeader` returns as manifest and MAC -/\ndef headerRet : HeaderRet := ⟨%s, %s⟩\n\n", kind(rh.results[0]), kind(rh.results[1]))
+	fmt.Fprintf(&b, "/-- what the reader `readHeader` pushes back in front of the stream (`*in = io.MultiReader(bytes.NewReader(x), *in)`) keeps: a fresh array filled by `copy`, or a slice of the pooled buffer -/\ndef surplusRet : RetKind := .%s\n\n", surplus)
 	fmt.Fprintf(&b, "/-- `Decrypt` after `readHeader` returned: the calls receiving its results, the hook, the unwrap callback, processSegments — in source order -/\ndef decryptUses : List String := %s\n\n", leanStrs(duses))
 	b.WriteString("/-- lock discipline of every function of package logger that touches `globalLoggers` -/\ndef loggerMethods : List MethodFact := [\n")
 	for i, lf := range lockFacts {
